@@ -72,6 +72,9 @@ pub enum Token {
     StartString,
     // This token is not derived. Stores the unescaped string
     Text(String),
+    // This token is not derived. A string literal whose `\xx` escapes do not form
+    // valid UTF-8; it is only meaningful as a `blob` literal.
+    Bytes(Vec<u8>),
     #[regex("[+-]", |lex| lex.slice().chars().next())]
     Sign(char),
     #[regex("[0-9][_0-9]*", parse_number)]
@@ -320,7 +323,7 @@ impl Iterator for Tokenizer<'_> {
                                         )
                                     })
                                 }) {
-                                Ok(c) => result.push(c),
+                                Ok(c) => push_char(&mut result, c),
                                 Err(e) => return Some(Err(e)),
                             }
                         }
@@ -330,8 +333,7 @@ impl Iterator for Tokenizer<'_> {
                                 Ok(byte) => {
                                     // According to https://webassembly.github.io/spec/core/text/values.html#strings
                                     // \xx escape can break utf8 unicode.
-                                    let bytes = unsafe { result.as_mut_vec() };
-                                    bytes.push(byte);
+                                    result.push(byte);
                                 }
                                 Err(_) => {
                                     return Some(Err(LexicalError::new(
@@ -357,7 +359,11 @@ impl Iterator for Tokenizer<'_> {
                     }
                 }
                 self.lex = lex.morph::<Token>();
-                Some(Ok((span.start, Token::Text(result), self.lex.span().end)))
+                let token = match String::from_utf8(result) {
+                    Ok(text) => Token::Text(text),
+                    Err(e) => Token::Bytes(e.into_bytes()),
+                };
+                Some(Ok((span.start, token, self.lex.span().end)))
             }
             Ok(token) => {
                 if self.trivia.is_some() {
